@@ -39,6 +39,10 @@ class Missing(metaclass=MissingType):
     ) -> bool:
         return value is MISSING
 
+    def __reduce__(self) -> str:
+        # copying and unpickling has to resolve to the same MISSING instance
+        return "MISSING"
+
     def __str__(self) -> str:
         return "MISSING"
 
